@@ -15,9 +15,9 @@ META = {
         "base IBAN is enumerated completely)"
     ),
     "assumptions": ["relational oracle only (mod 97 detects all such errors); base IBANs come from R-IBAN and must be accepted first"],
-    "min_distinct": {"quick": 100000, "thorough": 3000000},
+    "min_distinct": {"quick": 150000, "thorough": 6000000},
 }
-SIZES = {"quick": 3, "thorough": 90}
+SIZES = {"quick": 6, "thorough": 300}
 
 
 def plan(tier, seed):
